@@ -128,29 +128,6 @@ var c01 = Register("C01", "C01.addsub", func(a c01Args) *Violation {
 	return nil
 })
 
-// isNearTie: the discarded part differs from one half of the quantum 10^e by
-// less than 1e-6 of the quantum (but is not a tie).
-func isNearTie(x ref.X, e int) bool {
-	// frac = x/10^e - floor; compare |frac - 1/2| < 1e-6  <=>  |2*rem*10^6 - den*10^6| < 2*den
-	num, den := x.Num, x.Den
-	shift := e - x.Exp
-	n, d := num, den
-	if shift > 0 {
-		d = new(big.Int).Mul(den, ref.Pow10(shift))
-	} else if shift < 0 {
-		n = new(big.Int).Mul(num, ref.Pow10(-shift))
-	}
-	rem := new(big.Int).Rem(n, d)
-	rem.Lsh(rem, 1)
-	rem.Sub(rem, d)
-	rem.Abs(rem)
-	if rem.Sign() == 0 {
-		return false
-	}
-	rem.Mul(rem, big.NewInt(500000))
-	return rem.Cmp(d) < 0
-}
-
 // fullCoef draws a coefficient that cannot be scaled up (10*c > Cmax), i.e. a
 // result at full precision, with emphasis on both ends of that range.
 func fullCoef(t *rapid.T) *big.Int {
